@@ -1,6 +1,9 @@
 package c12
 
 import (
+	"bytes"
+	"crypto/aes"
+	"crypto/cipher"
 	"encoding/binary"
 	"fmt"
 	"strings"
@@ -506,6 +509,31 @@ func genFuzz(rng *h.Rng, emit func(string), thorough bool) {
 			binary.BigEndian.PutUint32(hd[:], uint32(rng.U64()))
 		}
 		emit("fzstream " + h.Hex(append(hd[:], mutate(rng, pkgs[rng.Intn(len(pkgs))])...)))
+	}
+	// post-handshake byte streams through the whole client pipeline (frames are AES-GCM boxes)
+	{
+		key, nonce := bytes.Repeat([]byte{7}, 32), bytes.Repeat([]byte{9}, 12)
+		block, _ := aes.NewCipher(key)
+		gcm, _ := cipher.NewGCM(block)
+		box := func(b []byte) []byte { return framed(gcm.Seal(nil, nonce, b, nil)) }
+		emit("fzconn -")
+		for i := 0; i < k(40, 800); i++ {
+			var s []byte
+			for j := rng.Intn(3); j >= 0; j-- {
+				p := pkgs[rng.Intn(len(pkgs))]
+				switch rng.Intn(4) {
+				case 0:
+					s = append(s, box(p)...) // a well-formed box
+				case 1:
+					s = append(s, box(mutate(rng, p))...) // a box around a damaged package
+				case 2:
+					s = append(s, mutate(rng, box(p))...) // a damaged box
+				default:
+					s = append(s, framed(rng.Bytes(rng.Intn(40)))...)
+				}
+			}
+			emit("fzconn " + h.Hex(s))
+		}
 	}
 	// sealed deal plaintexts (dedis/protobuf decoder behind the AEAD)
 	w := newWorld(3, 0)
